@@ -1,6 +1,7 @@
-(* Proofs/C14.v — lemmas and proofs for property C14 (JSON serialisation is faithful). *)
-From Coq Require Import Lia ZifyBool.
-From BS Require Import Model.Base Model.Regex Model.Json Model.JsonRe Gen.Regexes.
+(* Proofs/C14.v — lemmas and proofs for property C14 (JSON serialisation is faithful):
+   assembly of the layers (Proofs/C14a.v strings, C14b.v clean-up, C14c.v reader). *)
+From Coq Require Import Lia ZifyBool Permutation.
+From BS Require Import Model.Base Model.Regex Model.Json Model.JsonRe Gen.Regexes Proofs.C14a Proofs.C14b Proofs.C14c.
 
 (* ---- the regenerated clean-up regex and the scanner the theorems are about are the same
    function on every string of length <= 5 over {quote, backslash, point, zero, comma, a, newline}
@@ -8,3 +9,113 @@ From BS Require Import Model.Base Model.Regex Model.Json Model.JsonRe Gen.Regexe
 Lemma cleanup_regex_is_scanner_small :
   forallb cleanup_agree (all_strings [34; 92; 46; 48; 44; 97; 10]%N 5) = true.
 Proof. vm_compute. reflexivity. Qed.
+
+(* ---------------------------------------------------------------- well-formedness is kept by the layers *)
+Lemma forallb_ins_key {A} (P : str * A -> bool) kv l : forallb P (ins_key kv l) = P kv && forallb P l.
+Proof.
+  induction l as [|kv' t IH]; [reflexivity|]. simpl. destruct (key_leb (fst kv) (fst kv')); [reflexivity|].
+  simpl. rewrite IH. destruct (P kv), (P kv'); reflexivity.
+Qed.
+Lemma forallb_sort_keys {A} (P : str * A -> bool) l : forallb P (sort_keys l) = forallb P l.
+Proof. induction l as [|kv t IH]; [reflexivity|]. simpl. rewrite forallb_ins_key, IH. reflexivity. Qed.
+
+Lemma forallb_map_Forall {A B} (P : B -> bool) (Q : A -> bool) (f : A -> B) l :
+  Forall (fun x => Q x = true -> P (f x) = true) l -> forallb Q l = true -> forallb P (map f l) = true.
+Proof.
+  induction 1 as [|x t Hx Ht IH]; [reflexivity|]. simpl. intros H. apply andb_prop in H. destruct H as [H1 H2].
+  rewrite Hx by exact H1. apply IH. exact H2.
+Qed.
+
+Lemma wf_sortv v : wf v = true -> wf (sortv v) = true.
+Proof.
+  induction v as [| b | n | s | l IH | m IH] using jvalue_ind'; intros H; try exact H.
+  - simpl in *. apply (forallb_map_Forall wf wf sortv l IH H).
+  - simpl in *. rewrite forallb_sort_keys.
+    apply (forallb_map_Forall _ (fun kv => scalar_str (fst kv) && wf (snd kv)) (fun kv => (fst kv, sortv (snd kv)))); [|exact H].
+    eapply Forall_impl; [|exact IH]. intros [k x] Hx Hk. cbn [fst snd] in *. apply andb_prop in Hk. destruct Hk as [Hk1 Hk2].
+    rewrite Hk1. apply Hx. exact Hk2.
+Qed.
+
+Lemma strip_num_ok n : num_ok n = true -> num_ok (strip_num n) = true.
+Proof.
+  destruct n as [neg ip fr ex]. unfold strip_num, num_ok. cbn [n_neg n_int n_frac n_exp].
+  destruct fr as [f|]; [|auto]. destruct ex as [[sg e]|]; [auto|]. destruct (all_zero f); [|auto].
+  cbn [n_neg n_int n_frac n_exp]. intros H. apply andb_prop in H. destruct H as [H _]. apply andb_prop in H. destruct H as [H _].
+  rewrite H. reflexivity.
+Qed.
+
+Lemma wf_stripv v : wf v = true -> wf (stripv v) = true.
+Proof.
+  induction v as [| b | n | s | l IH | m IH] using jvalue_ind'; intros H; try exact H.
+  - simpl in *. apply strip_num_ok. exact H.
+  - simpl in *. apply (forallb_map_Forall wf wf stripv l IH H).
+  - simpl in *.
+    apply (forallb_map_Forall _ (fun kv => scalar_str (fst kv) && wf (snd kv)) (fun kv => (fst kv, stripv (snd kv)))); [|exact H].
+    eapply Forall_impl; [|exact IH]. intros [k x] Hx Hk. cbn [fst snd] in *. apply andb_prop in Hk. destruct Hk as [Hk1 Hk2].
+    rewrite Hk1. apply Hx. exact Hk2.
+Qed.
+
+Lemma wf_canon v : wf v = true -> wf (canon v) = true.
+Proof. intros H. apply wf_stripv, wf_sortv, H. Qed.
+
+(* ---------------------------------------------------------------- the reader's fuel is covered by the text length *)
+Lemma cost_le_length ind v : wf v = true -> forall lvl, (cost v <= length (render ind lvl v))%nat.
+Proof.
+  induction v as [| b | n | s | l IH | m IH] using jvalue_ind'; intros Hwf lvl.
+  - simpl. lia.
+  - destruct b; simpl; lia.
+  - simpl in Hwf. unfold num_ok in Hwf. apply andb_prop in Hwf. destruct Hwf as [H _]. apply andb_prop in H. destruct H as [H _].
+    destruct (int_ok_head _ H) as [c [t [E _]]]. simpl. unfold num_text. rewrite E. rewrite !app_length. simpl. lia.
+  - simpl. lia.
+  - destruct l as [|x t]; [simpl; lia|].
+    rewrite render_arr_cons. simpl in Hwf. apply andb_prop in Hwf. destruct Hwf as [Wx Wt]. inversion IH as [|? ? Hx Ht]; subst.
+    assert (Htl : (fold_right (fun x a => S (cost x + a)) 0 t
+                  <= length (flat_map (fun y => 44%N :: nl ind (S lvl) ++ render ind (S lvl) y) t))%nat).
+    { clear Hx Wx IH. induction t as [|y t IHt]; [simpl; lia|].
+      inversion Ht as [|? ? Hy Ht']; subst. simpl in Wt. apply andb_prop in Wt. destruct Wt as [Wy Wt].
+      cbn [fold_right flat_map]. rewrite app_length. cbn [length]. rewrite app_length.
+      specialize (Hy Wy (S lvl)). specialize (IHt Wt Ht'). lia. }
+    specialize (Hx Wx (S lvl)). cbn [cost fold_right length]. rewrite !app_length. cbn [length]. lia.
+  - destruct m as [|kx t]; [simpl; lia|].
+    rewrite render_obj_cons. simpl in Hwf. apply andb_prop in Hwf. destruct Hwf as [Wx Wt]. apply andb_prop in Wx. destruct Wx as [_ Wx].
+    inversion IH as [|? ? Hx Ht]; subst.
+    assert (Htl : (fold_right (fun kv a => S (cost (snd kv) + a)) 0 t
+                  <= length (flat_map (fun ky => 44%N :: nl ind (S lvl) ++ esc_string (fst ky) ++ colon ind ++ render ind (S lvl) (snd ky)) t))%nat).
+    { clear Hx Wx IH. induction t as [|y t IHt]; [simpl; lia|].
+      inversion Ht as [|? ? Hy Ht']; subst. simpl in Wt. apply andb_prop in Wt. destruct Wt as [Wy Wt].
+      apply andb_prop in Wy. destruct Wy as [_ Wy].
+      cbn [fold_right flat_map]. rewrite app_length. cbn [length]. rewrite !app_length.
+      specialize (Hy Wy (S lvl)). specialize (IHt Wt Ht'). lia. }
+    specialize (Hx Wx (S lvl)). cbn [cost fold_right length]. rewrite !app_length. cbn [length]. lia.
+Qed.
+
+(* ---------------------------------------------------------------- C14: the round trip *)
+Lemma encode_is_render_canon indent v : wf v = true ->
+  encode indent v = render (norm_indent indent) 0 (canon v).
+Proof.
+  intros H. unfold encode, encode_raw, cleanup, canon.
+  rewrite <- (app_nil_r (render (norm_indent indent) 0 (sortv v))).
+  rewrite scan_render by (try apply wf_sortv; auto). simpl. apply app_nil_r.
+Qed.
+
+Lemma roundtrip indent v : wf v = true -> decode (encode indent v) = DecOk (canon v).
+Proof.
+  intros H. rewrite encode_is_render_canon by exact H.
+  pose proof (wf_canon v H) as Hc.
+  unfold decode.
+  set (text := render (norm_indent indent) 0 (canon v)).
+  assert (Hs : skip_ws text = text).
+  { apply skip_ws_start. unfold text. rewrite <- (app_nil_r (render _ _ _)). apply render_starts. exact Hc. }
+  rewrite Hs. unfold text at 2. rewrite <- (app_nil_r (render _ _ _)).
+  rewrite (render_reads_back (norm_indent indent) (canon v) Hc 0%nat [] (S (length text))).
+  - reflexivity.
+  - reflexivity.
+  - pose proof (cost_le_length (norm_indent indent) (canon v) Hc 0%nat). unfold text. lia.
+Qed.
+
+Lemma encode_injective indent v1 v2 : wf v1 = true -> wf v2 = true ->
+  encode indent v1 = encode indent v2 -> canon v1 = canon v2.
+Proof.
+  intros H1 H2 E. pose proof (roundtrip indent v1 H1) as R1. pose proof (roundtrip indent v2 H2) as R2.
+  rewrite E in R1. rewrite R1 in R2. inversion R2. reflexivity.
+Qed.
